@@ -452,7 +452,7 @@ func (s *PatternConstraints) OptimizePatternConstraintBalance(scope *Scope, trav
 	// Only flip a right-bound segment when a previous frame exists to serve as the
 	// FROM source for the now-left bound node. Self-referential patterns such as
 	// (u)-[]->(u) can mark the right node as bound without a preceding CTE.
-	if traversalStep.RightNodeBound && !traversalStep.hasPreviousFrameBinding() {
+	if traversalStep.RightNodeBound && (!traversalStep.hasPreviousFrameBinding() || traversalStep.LeftNode.Identifier == traversalStep.RightNode.Identifier) {
 		return false, nil
 	}
 
